@@ -13,7 +13,7 @@ from vmm.gen import frames
 from vmm.ref import tbrref
 
 ID = 'C06'
-RULE = ('Hypothesis experiment frames: n_pre 3..40, n_test 1..20, n_cool 0..10, 1-5 geos per group, optional unassigned '
+RULE = ('Hypothesis experiment frames: n_pre 3..40 (and 85..130 in a quarter of the cases), n_test 1..20, n_cool 0..10, 1-5 geos per group, optional unassigned '
         'geos (labels -1/0/7/NaN) and unassigned periods before/after, date gaps, three layouts (flat / geo index / date '
         'index), custom column names and group/period labels incl. the post-analysis colab layout, shuffled rows; '
         'x use_cooldown x level in (0.01,0.99) x tails x threshold x rescale in (0,1000] x report in {last, all}; in half of the cases the TBR object was first fitted to another frame and queried with rescale != 1. '
@@ -71,6 +71,8 @@ def run(spec):
     cls.append('custom-names-or-labels')
   if fs['n_pre'] == 3:
     cls.append('n_pre=3')
+  if fs['n_pre'] > 90:
+    cls.append('n_pre>90')
   post = tbrref.Posterior(X[pre], Y[pre], X[an], Y[an])
   n_an = int(an.sum())
   if post.degenerate or n_an == 0 or not post.sigma2 > 1e-12 * max(1.0, float(np.var(Y[pre]))):
